@@ -42,6 +42,9 @@ def case(args):
             problems.append(("model-predicts-failure", "unexpected"))
         else:
             problems = t3.compare_success(sp, model, impl)
+        rstats = {}
+        if model["status"] == "done":
+            problems += t3.replay_problems(sp, model, impl, ("tasks",), stats=rstats)
         after = stamps(impl["fs"], planted)
         for p in planted:
             if before.get(p) != after.get(p):
@@ -53,7 +56,15 @@ def case(args):
         # history: complete run, then run again in place -> no command, no change
         if not problems:
             all_before = {p: (v[2], v[3], v[1]) for p, v in impl["fs"].items() if v[0] == "f" and not t3.IGNORED.match(p)}
+            files1 = t3.data_files(impl["fs"])
             impl2 = t3.run_impl(sc, sp)
+            sp2 = t3.Spec(sp.max, sp.bufsize); sp2.nodes = sp.nodes; sp2.files = dict(files1)
+            model2 = t3.run_model(sp2.text())
+            if model2["status"] == "done":
+                r2 = {}
+                problems += t3.replay_problems(sp2, model2, impl2, ("tasks",), stats=r2)
+                for k, v in r2.items():
+                    rstats[k] = (rstats.get(k, 0) + v) if isinstance(v, int) else v
             if impl2["rc"] != 0 or not impl2["returned"]:
                 problems.append(("rerun-fails", "re-running the completed workflow exits %s: %s" % (impl2["rc"], impl2["stderr"][-200:])))
             if t3.started_keys(impl2["trace"]):
@@ -62,7 +73,7 @@ def case(args):
             ch = [p for p in all_before if all_before[p] != all_after.get(p) and not p.endswith(".audit.json")]
             if ch:
                 problems.append(("rerun-modifies", "re-running a completed workflow changed %s" % ch[:3]))
-        return {"spec": sp.text(), "bufsize": sp.bufsize, "problems": problems, "ntasks": len(tasks), "nskip": len(skipped_keys), "rc": impl["rc"],
+        return {"replay": rstats, "spec": sp.text(), "bufsize": sp.bufsize, "problems": problems, "ntasks": len(tasks), "nskip": len(skipped_keys), "rc": impl["rc"],
                 "stderr": impl["stderr"][-300:], "yield": None, "wall": impl["wall"], "gofunc": sum(1 for p in sp.procs() if p.gofunc)}
     finally:
         sc.close()
